@@ -260,6 +260,15 @@ class GroupbyChunks(Harness):
             contigs = contigs + [contigs[-1]] * (n - 4)
             for order in ("ab", "ba"):
                 out.append(dict(n=n, contigs=contigs, chunks=[n], api="contingency", order=order))
+        # a streamed track of one genome read under the intervals of ANOTHER genome object with the same contigs in another order: every
+        # window gets the values of the contig it names, or the combination is refused -- never another contig's values
+        for order in ([1, 0, 2], [2, 1, 0], [0, 1, 2]):
+            out.append(dict(n=n, contigs=[0, 1, 2, 2] + [2] * (n - 4), chunks=[n], api="foreign_intervals", order=order))
+        # history: a context over the SAME names and sizes was made earlier in the process with another (anonymous) filter that ignores "2"
+        for contigs in ([0, 0, 1, 2], [0, 2, 2, 2], [2, 2, 2, 2]):
+            contigs = contigs + [contigs[-1]] * (n - 4)
+            for api in ("iter_chromosomes", "track_sum"):
+                out.append(dict(n=n, contigs=contigs, chunks=[2, n - 2], api=api, prior_context=True))
         # a genome that keeps a contig whose name contains '_': it is a chromosome like the others in every streamed evaluation
         for contigs in ([0, 1, 2, 2], [0, 0, 2, 2], [1, 1, 1, 1], [0, 2, 2, 2]):
             contigs = contigs + [contigs[-1]] * (n - 4)
@@ -280,6 +289,12 @@ class GroupbyChunks(Harness):
         from bionumpy.streams import NpDataclassStream
         from bionumpy.streams.groupby_func import groupby
         n = skel["n"]
+        if skel.get("prior_context"):
+            import bionumpy as bnp
+            import bionumpy.genomic_data.genome_context as gcm0
+            earlier = gcm0.GenomeContext.from_dict({c: 20 for c in self._C(skel)}, filter_function=lambda name: name != "2")
+            assert list(earlier.chrom_sizes) == [c for c in self._C(skel) if c != "2"]
+            bnp.Genome.from_dict({c: 20 for c in self._C(skel)}, filter_function=lambda name: name != "2")
         if skel["api"] == "track_sum":
             import bionumpy as bnp
             from bionumpy.datatypes import BedGraph
@@ -299,6 +314,20 @@ class GroupbyChunks(Harness):
                     tot = tot + v_ * (int(b_) - int(a_))
                 return dict(total=tot, n_records=len(d))
             return dict(total=ctx.lst(compute(track.sum())))
+        if skel["api"] == "foreign_intervals":
+            import bionumpy as bnp
+            from bionumpy.datatypes import BedGraph
+            from bionumpy.computation_graph import compute
+            C = self._C(skel)
+            names = [C[c] for c in skel["contigs"]]
+            pos = [3 * sum(1 for c in skel["contigs"][:i] if c == skel["contigs"][i]) for i in range(n)]
+            bg = BedGraph(names, pos, [p + 2 for p in pos], ctx.arr([x[f"w{i}"] for i in range(n)], "int64"))
+            g_track = bnp.Genome.from_dict({c: 20 for c in C})
+            g_other = bnp.Genome.from_dict({C[i]: 20 for i in skel["order"]})
+            track = g_track.get_track(NpDataclassStream(iter([bg]), dataclass=BedGraph))
+            windows = g_other.get_intervals(Interval([C[i] for i in skel["order"]], [0] * 3, [2] * 3))       # [0, 2) on every contig, in g_other's order
+            got = compute(track[windows])
+            return dict(rows=[ctx.lst(got[i].to_array()) for i in range(3)])
         if skel["api"] == "contingency":
             from bionumpy.streams import MultiStream
             from bionumpy.arithmetics.similarity_measures import get_contingency_table
@@ -362,6 +391,16 @@ class GroupbyChunks(Harness):
         return all(c < 3 for c in cs) and cs == sorted(set(cs))
 
     def post(self, skel, x, out):
+        if skel["api"] == "foreign_intervals":
+            if isinstance(out, Exc):
+                return skel["order"] != [0, 1, 2]        # refusing is right when the two genomes order their contigs differently
+            first = {c: skel["contigs"].index(c) for c in set(skel["contigs"])}      # the record at [0, 2) of each contig
+            conj = []
+            for j, ci in enumerate(skel["order"]):
+                if len(out["rows"][j]) != 2:
+                    return False
+                conj += [TI(v) == x[f"w{first[ci]}"].t for v in out["rows"][j]]
+            return z_and(conj)
         if skel["api"] == "contingency":
             if isinstance(out, Exc):
                 return not self._track_ok(skel)
@@ -392,6 +431,15 @@ class GroupbyChunks(Harness):
         return z_and(conj)
 
     def oracle(self, skel, cx, cout):
+        if skel["api"] == "foreign_intervals":
+            C = self._C(skel)
+            desc = f"streamed track over genome {C} read under windows [0,2) of a genome ordered {[C[i] for i in skel['order']]}"
+            if isinstance(cout, Exc):
+                return None if skel["order"] != [0, 1, 2] else f"{desc}: raised {cout}"
+            first = {c: skel["contigs"].index(c) for c in set(skel["contigs"])}
+            exp = [[cx[f"w{first[ci]}"]] * 2 for ci in skel["order"]]
+            got = [[int(v) for v in r] for r in cout["rows"]]
+            return None if got == exp else f"{desc}: values {got}, the named contigs hold {exp}"
         if skel["api"] == "contingency":
             names = [(self._C(skel) + ["zz"])[c] for c in skel["contigs"]]
             desc = (f"contingency table of A = [0,2) on every contig of {self._C(skel)} and B = entries on contigs {names}, passed as "
